@@ -383,7 +383,14 @@ func (fx *fexec) appendOp(x *ssa.Call, args []Val, st *State) Val {
 	inPlace := vc.define("appinplace", and(le(newLen, sCap(s.T)), not(eq(sArr(s.T), intLit(0)))))
 	base := add(sOff(s.T), sLen(s.T))
 	var filled Term
-	if c, ok := constLen(t.T); ok && c <= 4 {
+	c, ok := constLen(t.T)
+	if !ok {
+		c, ok = vc.constLens[t.T.S]
+	}
+	if ok && c <= 4 {
+		n = intLit(c)
+		newLen = vc.define("applen", add(sLen(s.T), n))
+		inPlace = vc.define("appinplace", and(le(newLen, sCap(s.T)), not(eq(sArr(s.T), intLit(0)))))
 		filled = oldArr
 		for j := int64(0); j < c; j++ {
 			filled = store(filled, add(base, intLit(j)), sel(srcArr, add(sOff(t.T), intLit(j))))
